@@ -652,6 +652,33 @@ func (g *pgen) stmt(ind int, e *pvars) {
 			}
 			g.defP(ind, e, v, true)
 		}},
+		{2, true, func() { // instance of a generic function used as a value; functions in a slice
+			v := g.v("p")
+			if g.r.Intn(2) == 0 {
+				fn := g.v("fn")
+				g.emit(ind, "%s := gid%d[*S]", fn, g.caseNo)
+				e.F = append(e.F, fn)
+				g.emit(ind, "%s := %s(%d, %s)", v, fn, g.newSite(), g.pick(e.P))
+				g.count("call-generic-value")
+			} else {
+				fs := g.v("fs")
+				a := fmt.Sprintf("echo%d", g.caseNo)
+				if len(e.F) > 0 {
+					a = g.pick(e.F)
+				}
+				g.emit(ind, "%s := []func(int, *S) *S{%s, echoq%d}", fs, a, g.caseNo)
+				g.emit(ind, "%s := %s[%d](%d, %s)", v, fs, g.r.Intn(2), g.newSite(), g.pick(e.P))
+				g.count("call-func-slice")
+			}
+			g.defP(ind, e, v, true)
+		}},
+		{2, len(e.I) > 0, func() { // method promoted through an embedded interface: wrapper (*D).M invokes the inner value
+			iv := g.v("iv")
+			g.emit(ind, "var %s I = &D{I: %s}", iv, g.pick(e.I))
+			g.emit(ind, "_ = %s", iv)
+			e.I = append(e.I, iv)
+			g.count("make-interface-embedded-iface")
+		}},
 		{2, true, func() { // instance of a generic function
 			v := g.v("p")
 			g.emit(ind, "%s := gid%d[*S](%d, %s)", v, g.caseNo, g.newSite(), g.pick(e.P))
@@ -796,7 +823,31 @@ func (g *pgen) structStmt(ind int, e *pvars) {
 	}
 	sv := g.pick(e.SV)
 	h := g.pick(e.P)
-	switch g.r.Intn(17) {
+	switch g.r.Intn(19) {
+	case 17, 18: // field of a struct-valued rvalue (ssa.Field on a register, not on a variable)
+		v := g.v("p")
+		switch g.r.Intn(4) {
+		case 0:
+			g.emit(ind, "%s := mkV%d(%d, %s, %s).%s", v, c, g.newSite(), g.pick(e.P), g.pick(e.P), g.pick([]string{"a", "b"}))
+			g.count("struct-rvalue-field-call")
+		case 1:
+			g.emit(ind, "if %s.vm == nil {", h)
+			g.emit(ind+1, "%s.vm = map[int]V{}", h)
+			g.emit(ind, "}")
+			g.emit(ind, "%s.vm[5] = %s", h, sv)
+			g.emit(ind, "%s := %s.vm[5].%s", v, h, g.pick([]string{"a", "b"}))
+			g.count("struct-rvalue-field-lookup")
+		case 2:
+			ch := g.v("cv")
+			g.emit(ind, "%s := make(chan V, 1)", ch)
+			g.emit(ind, "%s <- %s", ch, sv)
+			g.emit(ind, "%s := (<-%s).%s", v, ch, g.pick([]string{"a", "b"}))
+			g.count("struct-rvalue-field-recv")
+		default:
+			g.emit(ind, "%s := idV%d(%d, W{v: %s, z: %s}.v).b", v, c, g.newSite(), sv, g.pick(e.P))
+			g.count("struct-rvalue-field-nested")
+		}
+		g.defP(ind, e, v, true)
 	case 0: // field read / write on the local
 		if g.r.Intn(2) == 0 {
 			g.emit(ind, "%s.%s = %s", sv, g.pick([]string{"a", "b"}), g.pick(e.P))
@@ -1422,6 +1473,12 @@ type W struct {
 	z *S
 }
 
+// D embeds the interface: (*D).M is a synthetic wrapper that invokes the inner value.
+type D struct {
+	n int
+	I
+}
+
 // VV implements I with a value receiver: an interface holding a VV has a struct payload.
 type VV struct {
 	a *S
@@ -1513,7 +1570,13 @@ func enter(fid, site int) {
 }
 
 func probeP(id int, p *S)         { keep = append(keep, p); fmt.Fprintf(out, "P %d %p\n", id, p) }
-func probePP(id int, p **S)       { keep = append(keep, p); fmt.Fprintf(out, "P %d %p\n", id, p) }
+func probePP(id int, p **S) {
+	keep = append(keep, p)
+	fmt.Fprintf(out, "P %d %p\n", id, p)
+	if p != nil {
+		fmt.Fprintf(out, "Q %d %p\n", id, *p) // what the cell holds: ground truth for IndirectQueries
+	}
+}
 func probeSL(id int, p []*S)      { keep = append(keep, p); fmt.Fprintf(out, "P %d %p\n", id, p) }
 func probeM(id int, p map[int]*S) { keep = append(keep, p); fmt.Fprintf(out, "P %d %p\n", id, p) }
 func probeMK(id int, p map[*S]*S) { keep = append(keep, p); fmt.Fprintf(out, "P %d %p\n", id, p) }
